@@ -422,6 +422,11 @@ def route12(ctx: Any) -> List[Ob]:
         return bool(srcs) and all(all(packet_derived(x.id, depth - 1) for x in ast.walk(v) if isinstance(x, ast.Name)) for v in srcs)
 
     from_packets = all(packet_derived(n_) for n_ in free) and any(isinstance(x, ast.Attribute) and x.attr in ('_questions', 'questions') for x in ast.walk(qx))
+    # `a record the host saw multicast less than one second before` is read from the cache: every record type the host can
+    # answer with is cached when it is seen (pairs and cache adds per record type, shared with C06.ORDER)
+    from .c06 import pair_per_live_record
+
+    obs.extend(pair_per_live_record(ctx, R))
     obs.append(ob(R, ar, ctor[0], 'the question list that decides `single question, answer at once` is the list of questions asked in the packets', from_packets, '' if from_packets else f'`{norm(qx)[:80]}` is not derived from the packets alone'))
     return obs
 
